@@ -204,8 +204,9 @@ def run(prog, tier) -> Result:
     cg = CallGraph(prog)
     n = len(check_ownership(res, "R12.4", writes, "_converters", {
         "QuantityMeta.__init__": {"="},
-        "QuantityMeta.register_converter": {"append"}, "QuantityMeta.remove_converter": {"remove"},
-        "MoneyMeta.register_converter": {"append"}, "MoneyMeta.remove_converter": {"pop"}}, cg))
+        # what the mutators do to the list is decided by the typestate judges above (R12.1-R12.3)
+        "QuantityMeta.register_converter": {"*"}, "QuantityMeta.remove_converter": {"*"},
+        "MoneyMeta.register_converter": {"*"}, "MoneyMeta.remove_converter": {"*"}}, cg))
     res.require("R12.4", 6)
     # no function hands out the list itself (aliasing would bypass the owner API)
     leaks = []
